@@ -208,6 +208,13 @@ impl C04 {
         // lengths that alias the right one modulo 2^8 / 2^16 first (as far as the header form can express them), then the
         // lengths next to the right one, then the rest
         let mut lens: Vec<usize> = [size + 0x100, size + 0x1_0000, size + 0x2_0000, size + 0xFFFF, size + 0x1_0001].into_iter().filter(|l| *l <= max_body).collect();
+        // and the right length with one more bit set, for every bit the size field has
+        for k in 9..=22 {
+            let l = size + (1usize << k);
+            if l <= max_body && !lens.contains(&l) {
+                lens.push(l);
+            }
+        }
         for d in 1..=(size + 8) {
             if size >= d {
                 lens.push(size - d);
@@ -243,7 +250,7 @@ impl C04 {
                     let e = nf * Self::vals_per_field(tier);
                     let l = match fixed {
                         Some(size) if k == 0 && f.plain.len() == size => (Self::l_lengths(size, crate::c02::max_expressible_body(case.exp, case.dir)).len() as u64).min(match tier {
-                            Tier::Quick => 40,
+                            Tier::Quick => 56,
                             Tier::Thorough => 400,
                         }),
                         _ => 0,
@@ -511,12 +518,15 @@ impl Check for C04 {
                 if let Some(p) = pick {
                     let l = lens[p];
                     let mut body = f.plain.clone();
-                    body.resize(l, 0);
-                    let mut s = world_header(case.exp, case.dir, f.opcode, body.len());
+                    // long bodies are kept out of the scenario: `pad_zeros` bytes are appended when it is executed
+                    let pad = if l > size + 64 { l - size } else { 0 };
+                    body.resize(l - pad, 0);
+                    let mut s = world_header(case.exp, case.dir, f.opcode, l);
                     s.extend_from_slice(&body);
+                    let sched = if pad > 0x20000 { Schedule::whole() } else { Schedule::random(&mut sr, s.len() + pad + 8, fl == Flavour::Sync) };
                     return json!({"kind": "L", "label": format!("{}:len={}", case.label(), l), "case": case_json(&case), "fixed_size": size,
-                        "orig": bytes_to_json(&orig), "stream": bytes_to_json(&s), "number": Value::Null, "len": 0, "entry": entry, "flavour": fl.name(),
-                        "sched": sched_json(&Schedule::random(&mut sr, s.len() + 8, fl == Flavour::Sync))});
+                        "orig": bytes_to_json(&orig), "stream": bytes_to_json(&s), "pad_zeros": pad, "number": Value::Null, "len": 0, "entry": entry, "flavour": fl.name(),
+                        "sched": sched_json(&sched)});
                 }
             }
         }
@@ -550,7 +560,9 @@ impl Check for C04 {
                 }
             }
         }
-        let stream = json_to_bytes(&sc["stream"]);
+        let mut stream = json_to_bytes(&sc["stream"]);
+        let pad = sc["pad_zeros"].as_u64().unwrap_or(0) as usize;
+        stream.resize(stream.len() + pad, 0);
         let mut r = SimReader::new(&stream, &sched);
         let budget = 8 * stream.len() as u64 + 4096 + 16 * sched.steps.len() as u64;
         let res = guarded(|| read_any(&case, &entry, fl, &mut r, budget));
